@@ -3,7 +3,8 @@
    BIO.  Records are  type :: length :: E(payload) ; E is an abstract byte-wise bijection with inverse D (Section
    variables); handshake flights are records of type 22 with fixed payloads; application data travels in records of
    type 23 with at most M payload bytes; the close notification is an empty record of type 21.  read returns plaintext
-   only from complete records, otherwise WantRead — or SSLEOFError if the incoming BIO is at end-of-file.
+   only from complete records, otherwise WantRead — or SSLEOFError if the incoming BIO is at end-of-file (so WantRead
+   always means "the incoming BIO holds no complete record"); a record the ideal peer never sends is a protocol error.
    No proofs here.  OpenSSL's conformance to this layer is in the trusted base (validated by the C08/C09 runs). *)
 From EN Require Import Lib.Bytes Conc.TlsBase.
 
@@ -106,11 +107,11 @@ Definition read (s : ideal) (n : nat) : ideal * sslout * bytes :=
           | Some (t, p, rest) =>
               if N.eqb t T_DATA then
                 match p with
-                | [] => (upd s 2 rest [] false (i_sent_cn s), SWantRead, [])
+                | [] => (s, SErr ESslOther, [])          (* the ideal writer never produces an empty record *)
                 | _ => (upd s 2 rest (skipn n p) false (i_sent_cn s), SOk (length (firstn n p)), [])
                 end
               else if N.eqb t T_ALERT then (upd s 2 rest [] true (i_sent_cn s), SOk 0, [])
-              else (upd s 2 rest [] false (i_sent_cn s), SWantRead, [])
+              else (s, SErr ESslOther, [])               (* no handshake record after the handshake *)
           end
     end.
 
